@@ -296,7 +296,12 @@ impl Primitive {
             Primitive::Boolean(b) => Ok(*b as u8 as i64),
             Primitive::Number(n) => {
                 if float_ne(n.fract(), 0.0) {
-                    Err(wrong_argument!(PrimitiveKind::Integer, self))
+                    //a number is accepted where an integer is needed as long as its
+                    //value is whole, what fails here is the value and not the type
+                    Err(TransformError::OutOfBounds(format!(
+                        "expected a whole number, got {}",
+                        n
+                    )))
                 } else {
                     Ok(*n as i64)
                 }
@@ -320,7 +325,10 @@ impl Primitive {
             Primitive::PositiveInteger(n) => Ok(*n as usize),
             Primitive::Integer(n) => {
                 if *n < 0 {
-                    Err(wrong_argument!(PrimitiveKind::PositiveInteger, self))
+                    Err(TransformError::OutOfBounds(format!(
+                        "expected a non negative whole number, got {}",
+                        n
+                    )))
                 } else {
                     Ok(*n as usize)
                 }
@@ -328,7 +336,10 @@ impl Primitive {
             Primitive::Boolean(b) => Ok(*b as u8 as usize),
             Primitive::Number(n) => {
                 if float_ne(n.fract(), 0.0) || float_lt(*n, 0.0) {
-                    Err(wrong_argument!(PrimitiveKind::PositiveInteger, self))
+                    Err(TransformError::OutOfBounds(format!(
+                        "expected a non negative whole number, got {}",
+                        n
+                    )))
                 } else {
                     Ok(*n as usize)
                 }
